@@ -367,6 +367,20 @@ func c04Run(c *core.Ctx, idx int) {
 	}
 	r := c.Rng
 	tree := c04Gen.Gen(r)
+	if idx%5000 == 1250 {
+		// a nested stack (and a Condition's expression) of another magnitude, followed by ordinary elements
+		n := []int{255, 256, 4095, 4096, 65535, 65536, 65537, 70000}[r.Intn(8)]
+		big := func() *TNode {
+			b := &TNode{T: "stack", Kind: []string{"LIST", "AND", "OR"}[r.Intn(3)]}
+			for i := 0; i < n; i++ {
+				b.Kids = append(b.Kids, &TNode{T: "leaf", Leaf: &LeafDesc{Tag: "int", I: int64(i)}})
+			}
+			return b
+		}
+		tree = &TNode{T: "stack", Kind: "AND", Kids: []*TNode{{T: "leaf", Leaf: &LeafDesc{Tag: "str", S: "before"}}, big(),
+			{T: "leaf", Leaf: &LeafDesc{Tag: "str", S: "after"}}, {T: "cond", Kw: "big", Op: &OpDesc{Code: 1}, Expr: big()}, {T: "leaf", Leaf: &LeafDesc{Tag: "int", I: 7}}}}
+		c.Count("trees.with-nested-stack-of-another-magnitude")
+	}
 	withCapOrFold := false
 	if r.Chance(1, 6) {
 		tree.Walk(func(n *TNode) {
